@@ -12,7 +12,7 @@ CONSTANTS
   XDurs = {99, 0, 6}
   XSGDs = {0, 4}
   XReps = {99}
-  UNames = {"-", "autogen", "r2", "r3"}
+  UNames = {"-", "", "autogen", "r2", "r3"}
   UDurs = {99, 0, 1, 2, 9}
   USGDs = {99, 0, 1, 4}
   UFull = FALSE
@@ -25,5 +25,6 @@ CONSTANTS
   DropKeepsDefault = TRUE
   RenameKeepsDefault = TRUE
   HalfYearIsLong = TRUE
-INVARIANTS Inv_Names Inv_ShardGroups Inv_Durations
+  RenameAcceptsEmpty = TRUE
+INVARIANTS Inv_ShardGroups Inv_Durations
 CHECK_DEADLOCK FALSE
